@@ -208,6 +208,7 @@ NatEnd(r, s) ==
   ELSE IF r.kind = "plain" THEN r.begT
   ELSE IF r.kind = "slow" THEN r.begT + r.hold
   ELSE IF r.kind = "upgrade" THEN Max(s, r.begT)
+  ELSE IF r.kind = "slowupgrade" /\ r.begT + r.hold < s THEN s
   ELSE Infinity
 
 \* a client request r begins at target e.tg
@@ -244,11 +245,11 @@ ChkTgEnd(h, e) ==
 \* is the cancellation / closing of r at its target at time r.endT explained?
 Explained(h, r) ==
   \/ r.abort # 0
-  \/ r.kind # "upgrade" /\ r.endT = r.begT + RespTimeout
+  \/ r.how = "cancelled" /\ r.endT = r.begT + RespTimeout
   \/ \E k \in DOMAIN h.cmd :
         /\ r.tg \in h.cmd[k].prev
         /\ h.cmd[k].kind \in DrainKinds \/ h.cmd[k].ret # 0
-        /\ IF r.kind = "upgrade" THEN r.endT = Max(h.cmd[k].s, r.begT) \/ r.endT = h.cmd[k].s + h.cmd[k].drto
+        /\ IF r.how = "closed" THEN r.endT = Max(h.cmd[k].s, r.begT) \/ r.endT = h.cmd[k].s + h.cmd[k].drto
            ELSE r.endT = h.cmd[k].s + h.cmd[k].drto
 
 ChkCmdRet(h, g, e) ==
@@ -288,15 +289,17 @@ Allowed(h, r, seq) ==
   \cup UNION {h.cmd[k].targets : k \in {j \in Overlapping(h, r, seq) :
                  h.cmd[j].kind = "deploy" /\ (h.cmd[j].ret = 0 \/ h.cmd[j].res = "ok")}}
 
-C02pre(h, r, seq) ==
+C02pre(h, r, seq, now) ==
   LET ov == Overlapping(h, r, seq) IN
   /\ Has(h.svc, r.svc) /\ ~h.svc[r.svc].mess
   /\ r.kind \in {"plain", "slow"} /\ ~r.hc /\ r.abort = 0 /\ r.cookie = ""
   /\ r.curAtSend # NoCmd
   /\ r.pAtSend = "running" /\ r.pdefAtSend
   /\ \A k \in ov : h.cmd[k].kind = "deploy"
-  /\ r.kind = "slow" => /\ r.hold < RespTimeout - 100
-                        /\ \A k \in ov : r.hold < h.cmd[k].drto
+  /\ r.kind = "slow" => r.hold < RespTimeout - 100
+  \* "provided requests in flight finish within the drain timeout": the whole life of the request
+  \* (including time its goroutine spent descheduled) is shorter than every overlapping drain timeout
+  /\ \A k \in ov : now - r.sendT < h.cmd[k].drto
   /\ \A u \in Allowed(h, r, seq) : ~h.tg[u].flaky
 
 ChkCliRecv(h, g, e) ==
@@ -304,9 +307,9 @@ ChkCliRecv(h, g, e) ==
   ELSE
   LET r == g.rq[e.r]
       al == Allowed(h, r, e.seq)
-  IN  If(C02pre(h, r, e.seq) /\ ~(e.status = 200 /\ e.origin \in al /\ e.intact),
+  IN  If(C02pre(h, r, e.seq, e.t) /\ ~(e.status = 200 /\ e.origin \in al /\ e.intact),
          {V("C02", e.r, Sig(r), <<"status", e.status, "origin", e.origin, "allowed", al>>)})
-   \cup If(r.how = "replied" /\ r.abort = 0 /\ r.kind # "upgrade" /\ ~(e.status = 200 /\ e.origin = r.tg /\ e.intact),
+   \cup If(r.how = "replied" /\ r.abort = 0 /\ r.kind \notin {"upgrade", "slowupgrade"} /\ ~(e.status = 200 /\ e.origin = r.tg /\ e.intact),
          {V("C03_c", e.r, Sig(r), <<"target replied but client got", e.status, e.origin>>)})
    \cup If(r.how = "cancelled" /\ r.abort = 0 /\ e.status # 504,
          {V("C03_c", e.r, Sig(r), <<"request cut off without a 504", e.status>>)})
@@ -330,9 +333,9 @@ ChkEnd(h, e) ==
                                           /\ ~Explained(h, h.rq[r])}
       \* upgraded connections that survived the start of a drain of their target
       survivors == {r \in DOMAIN h.rq :
-                      /\ h.rq[r].kind = "upgrade" /\ h.rq[r].beg # 0
+                      /\ h.rq[r].kind \in {"upgrade", "slowupgrade"} /\ h.rq[r].beg # 0
                       /\ \E k \in DrainedBy(h, h.rq[r].tg) :
-                            /\ h.rq[r].begT < h.cmd[k].s
+                            /\ h.rq[r].begT + h.rq[r].hold < h.cmd[k].s
                             /\ h.rq[r].endSeq = 0 \/ h.rq[r].endT > h.cmd[k].s}
       live == {u \in DOMAIN h.tg : /\ h.tg[u].retSeq = 0 /\ h.cmd[h.tg[u].grp].res = "ok"
                                    /\ h.cmd[h.tg[u].grp].hcT < h.cmd[h.tg[u].grp].hcI
@@ -372,8 +375,8 @@ Exercised(h, g, e) ==
          \cup {"C18_panic"}
     [] e.ev = "cli_recv" /\ Has(h.rq, e.r) ->
          LET r == g.rq[e.r] IN
-         If(C02pre(h, r, e.seq), {"C02"})
-         \cup If(C02pre(h, r, e.seq) /\ \E k \in Overlapping(h, r, e.seq) : TRUE, {"C02_overlap"})
+         If(C02pre(h, r, e.seq, e.t), {"C02"})
+         \cup If(C02pre(h, r, e.seq, e.t) /\ \E k \in Overlapping(h, r, e.seq) : TRUE, {"C02_overlap"})
          \cup If(r.how \in {"replied", "cancelled"} /\ \E k \in DOMAIN h.cmd : r.tg \in h.cmd[k].prev, {"C03_c"})
     [] e.ev = "tg_probe" /\ Has(h.tg, e.tg) ->
          If(h.urgent /\ h.tg[e.tg].retSeq = 0 /\ h.tg[e.tg].probeT >= 0, {"C09_a"})
